@@ -33,7 +33,9 @@ META = dict(
                "the model's script (seeds first; per iteration the algorithm's events, then observer calls only under `output_manager is not None` "
                "and their periodicity tests; no algorithm event or test depending on the logging configuration) is no longer only sampled: it is "
                "proved of the program regenerated from today's source (C11_src_*), for every configuration. What the named events DO (samplers, "
-               "model methods, the output manager's print/save/plot methods being read-only) is still tied by recorded traces: most of the assurance that the CODE has this shape comes from the per-run checks: recorded traces of real "
+               "model methods) is still tied by recorded traces; that the output manager's print / save / plot methods are read-only scripts is read from the source "
+               "(operations classified statement by statement, coq/gen/GenC11Obs.v; C11_src_logging_transparent_observers_from_source: the read_only hypothesis "
+               "is discharged, what stays assumed is that each named operation produces events of its kind). Most of the assurance that the CODE has this shape comes from the per-run checks: recorded traces of real "
                "fits with logging = the trace without logging + read-only operations + zero generator consumption (checked in Coq and "
                "on generator-state digests), and bit-identical parameters / individual parameters / simulated data across repetition, "
                "prior random-number consumption, prior fits and the logging grid. 'Never aborts' is a runtime check only (finding F4).",
